@@ -1,6 +1,9 @@
 use mlsverif::engines::{run, Args};
 use mlsverif::util::install_panic_hook;
 
+#[global_allocator]
+static GLOBAL: mlsverif::alloc::CountingAlloc = mlsverif::alloc::CountingAlloc;
+
 fn main() {
     install_panic_hook();
     let argv: Vec<String> = std::env::args().collect();
